@@ -460,6 +460,37 @@ def rule_all_channels(ctx, tu):
     ctx.floor(R, 20)
 
 
+def rule_molecules(ctx, py, R="C07.UNITS"):
+    """the stochastic engines count molecules: every LibRDEngine built for the option "gillespie" or "tauleap" is built with
+    requires_molecules=True (the flag that forces the engine's quantity unit to the molecule); with the script's own quantity
+    unit (mol, nmol) the integer counts of the propensities and of the Poisson draws are counts of something else"""
+    import ast
+    from .. import pyfe, pysym
+    m = py.mods.get("engine_collection")
+    ctx.need(m is not None, R, "module engine_collection not found")
+    n = 0
+    for f in m.funcs.values():
+        for c in pyfe.calls_in(f):
+            if pyfe.call_name(c).split(".")[-1] != "LibRDEngine":
+                continue
+            opt = pyfe.arg(c, 1, "option")
+            req = pyfe.arg(c, 3, "requires_molecules")
+            opt = pysym.inline(opt, f) if opt is not None else None
+            req = pysym.inline(req, f) if req is not None else None
+            if not (isinstance(opt, ast.Constant) and isinstance(opt.value, str)):
+                continue                 # a generic builder: judged where it is called with a literal option (helpers are inlined)
+            n += 1
+            if opt.value in ("gillespie", "tauleap"):
+                ok = isinstance(req, ast.Constant) and req.value is True
+                ctx.check(ok, R, c, f._qual, "LibRDEngine(option=%r, requires_molecules=%s)" % (opt.value, pyfe.src(req) if req is not None
+                          else "<default>"), "stochastic engines run in molecules", "the %s engine is built without "
+                          "requires_molecules=True: it counts in the script's quantity unit, propensities and Poisson means are not "
+                          "those of molecule numbers" % opt.value)
+            else:
+                ctx.ok(R, c, f._qual, "LibRDEngine(option=%r)" % opt.value, "deterministic engine: any quantity unit")
+    ctx.need(n >= 3, R, "engine_collection: the three engine constructions with a literal option are not found (%d)" % n)
+
+
 def run(ctx):
     tu = ctx.cx
     rule_one_event(ctx, tu)
@@ -478,6 +509,7 @@ def run(ctx):
     # amount unit was forced to `molecule` beforehand (shared with C04.BOUNDARY)
     from . import c04
     c04.rule_boundary(ctx, ctx.py, tu, "C07.UNITS")
+    rule_molecules(ctx, ctx.py)
     from .. import dim
     dim.rule_stochastic(ctx, tu, "C07.DIM")
     from .. import argorder
